@@ -96,3 +96,27 @@ pub struct W3SourceNotClone;
 /// let _ = keep();
 /// ```
 pub struct W4NoDanglingTemporaries;
+
+/// W5 (C17, "a temporary is as large as the view built over it"): the backend tag of a DFT temporary taken from scratch must be the
+/// backend of the module that sized it.  (Today this compiles: see known_findings.jsonl.)
+///
+/// ```compile_fail,E0277
+/// use poulpy_hal::{api::{ModuleNew, ScratchOwnedAlloc, ScratchOwnedBorrow, ScratchTakeBasic}, layouts::{Module, ScratchOwned}};
+/// use poulpy_cpu_ref::{FFT64Ref, NTT120Ref};
+/// let module: Module<FFT64Ref> = Module::<FFT64Ref>::new(8);
+/// let mut owned: ScratchOwned<FFT64Ref> = ScratchOwned::alloc(1 << 12);
+/// let scratch = owned.borrow();
+/// // bytes are counted with FFT64Ref's scalar, the view is typed with NTT120Ref's (four times larger)
+/// let (_v, _rest) = scratch.take_vec_znx_dft::<Module<FFT64Ref>, NTT120Ref>(&module, 1, 1);
+/// ```
+///
+/// Twin:
+/// ```
+/// use poulpy_hal::{api::{ModuleNew, ScratchOwnedAlloc, ScratchOwnedBorrow, ScratchTakeBasic}, layouts::{Module, ScratchOwned}};
+/// use poulpy_cpu_ref::FFT64Ref;
+/// let module: Module<FFT64Ref> = Module::<FFT64Ref>::new(8);
+/// let mut owned: ScratchOwned<FFT64Ref> = ScratchOwned::alloc(1 << 12);
+/// let scratch = owned.borrow();
+/// let (_v, _rest) = scratch.take_vec_znx_dft::<Module<FFT64Ref>, FFT64Ref>(&module, 1, 1);
+/// ```
+pub struct W5BackendTagOfTemporaries;
